@@ -99,6 +99,22 @@ def run(ctx):
                         if seen_c2s >= nth and seen_c2s >= 2:
                             acts += [{"a": "deliver", "d": d, "k": 0} for _ in range(4) for d in ("s2c", "c2s")]
                             jobs.append({"mode": "layerc", "p": pp, "acts": acts})
+                    # directed: the client's reassembly state times out (no sweep) while the request still waits - before the
+                    # n-th response from the end is delivered (n = 1: before the LAST block): the body is never a part of itself
+                    s2c_total = sum(1 for a in h["acts"] if a["a"] == "deliver" and a["d"] == "s2c")
+                    for back in (1, 2):
+                        if s2c_total - back < 1:
+                            continue
+                        acts, cnt = [], 0
+                        for a in h["acts"]:
+                            if a["a"] == "deliver" and a["d"] == "s2c":
+                                cnt += 1
+                                if cnt == s2c_total - back + 1:
+                                    acts.append({"a": "stale", "d": "c2s", "k": 0})
+                            acts.append(a)
+                        acts += [a for a in h["acts"] if a["a"] != "start"] + [{"a": "deliver", "d": d, "k": 0} for _ in range(3) for d in ("c2s", "s2c")]
+                        jobs.append({"mode": "layer", "p": pp, "acts": acts})
+                        nretry += 1
                     # directed: the transfer is abandoned after the n-th response (the peer goes silent, the caller gives up), the
                     # transfer timeout elapses WITHOUT a sweep, and the application retries with the same token
                     ns2c = sum(1 for a in h["acts"] if a["a"] == "deliver" and a["d"] == "s2c")
